@@ -41,6 +41,8 @@ def apply(apret, identifiers=None, options=None, ret_details=False,
         warnings.warn(
             "Please use 'identifiers' instead of 'preproc_names'!",
             DeprecationWarning)
+    if options is None:
+        options = {}
     details = {}
     # Reset all user-defined data of the dataset, because we
     # probably edited "tip position", "force", etc. If this
